@@ -8,7 +8,7 @@ import z3
 
 from . import SRC_ROOT
 from .values import (B, I, R, S, NAN, NONE, Bound, BreakSignal, ClassV, ContinueSignal, Ext, FiltV,
-                     FuncV, Infeasible, NativeFn, Obj, PyRaise, Rec, ReturnSignal, SeqV, SuperV,
+                     FuncV, Infeasible, NativeFn, Obj, PyRaise, Rec, ReturnSignal, SeqV, SuperV, SymList,
                      Unsupported, box_bool, box_real, box_str, is_num, is_obj, is_sym, is_z,
                      is_zbool, is_zstr, isnone_of, item_of, len_of, real_of, str_of, truthy_of,
                      ufunc)
@@ -272,6 +272,8 @@ class Engine:
                 res = PathResult(self.path, "return", v)
             except PyRaise as e:
                 res = PathResult(self.path, "raise", e)
+            except PathCut as e:
+                res = PathResult(self.path, "cut", e)
             except Infeasible:
                 work.extend(self.path.alternatives)
                 continue
@@ -367,7 +369,7 @@ class Engine:
             return z3.Length(v) > 0
         if is_obj(v):
             return truthy_of(v)
-        if isinstance(v, SeqV):
+        if isinstance(v, (SeqV, SymList)):
             return v.n > 0
         if isinstance(v, (int, float, str, list, tuple, dict, set, range, frozenset)):
             return bool(v)
@@ -441,6 +443,9 @@ class Engine:
                 elems += [self.box(k), self.box(v[k])]
             f = ufunc(f"dictkv{len(keys)}", *([Obj] * len(elems)), Obj)
             return f(*elems)
+        if isinstance(v, SymList):
+            i = z3.Int("i!bx")
+            v = SeqV(z3.Lambda([i], self.box(v.at(self, i))), v.n)
         if isinstance(v, SeqV):
             f = ufunc("seqv", z3.ArraySort(I, Obj), I, Obj)
             t = f(v.arr, v.n)
@@ -490,7 +495,7 @@ class Engine:
         from .tensor import PT
         if isinstance(a, PT) or isinstance(b, PT):
             raise Unsupported("veq on tensors: use tensor obligations")
-        if isinstance(a, SeqV) or isinstance(b, SeqV):
+        if isinstance(a, (SeqV, SymList)) or isinstance(b, (SeqV, SymList)):
             return self._seq_eq(a, b)
         if is_obj(a) or is_obj(b):
             if is_obj(a) and is_obj(b):
@@ -545,6 +550,15 @@ class Engine:
             return False
 
     def _seq_eq(self, a, b):
+        if isinstance(a, SymList) or isinstance(b, SymList):
+            sa, sb = self.as_symiter(a), self.as_symiter(b)
+            if sa is None or sb is None:
+                s, x = (sa, b) if sa is not None and sb is None else (sb, a)
+                if isinstance(x, (list, tuple)):
+                    return _and([s.n == len(x)] + [self.veq(s.at(self, z3.IntVal(k)), e) for k, e in enumerate(x)])
+                return False
+            i = z3.Int(self.path.fresh("eq_i"))
+            return _and([sa.n == sb.n, z3.Implies(z3.And(i >= 0, i < sa.n), _zbv(self.veq(sa.at(self, i), sb.at(self, i))))])
         if isinstance(a, SeqV) and isinstance(b, SeqV):
             i = z3.Int(self.path.fresh("eq_i"))
             # equality of sequences is stated at a fresh (skolem) index
@@ -606,6 +620,10 @@ class Engine:
 
     def st_Assign(self, st, env):
         v = self.eval(st.value, env)
+        if len(st.targets) == 1 and isinstance(st.targets[0], ast.Name):
+            h = self.policy.get(("ghost_local", env.func_key(), st.targets[0].id))
+            if h is not None:
+                v = h(self, v)
         for t in st.targets:
             self.assign(t, v, env)
 
@@ -692,9 +710,9 @@ class Engine:
             self.exec_block(st.orelse, env)
 
     def st_While(self, st, env):
-        handler = self.policy.get(("loop", env.func_key(), _loop_ordinal(env, st)))
-        if handler is not None:
-            return handler(self, st, env)
+        spec = self.policy.get(("loop", env.func_key(), _loop_ordinal(env, st)))
+        if spec is not None:
+            return self.loop_by_invariant(spec, st, env)
         n = 0
         while True:
             c = self.eval(st.test, env)
@@ -711,6 +729,25 @@ class Engine:
                 return
             except ContinueSignal:
                 continue
+        self.exec_block(st.orelse, env)
+
+    def loop_by_invariant(self, spec, st, env):
+        """Hoare rule for a loop with a contract-supplied invariant: check it on entry, havoc the
+        loop's variables under the invariant, check that one iteration re-establishes it (that path
+        then ends), continue after the loop with invariant and negated condition."""
+        tag = spec.name
+        for cname, clause in spec.invariant(self, env):
+            self.require(f"{tag}.{cname}.base", clause, kind="inv")
+        spec.havoc(self, env)
+        c = self.eval(st.test, env)
+        if self.truth(c):
+            try:
+                self.exec_block(st.body, env)
+            except (BreakSignal, ContinueSignal):
+                raise Unsupported("break/continue in a loop handled by invariant", st)
+            for cname, clause in spec.invariant(self, env):
+                self.require(f"{tag}.{cname}.step", clause, kind="inv")
+            raise PathCut(tag)
         self.exec_block(st.orelse, env)
 
     def st_Break(self, st, env):
@@ -1306,8 +1343,9 @@ class Engine:
         if conds:
             ii = i
             return FiltV(it.n, _Abs(ii, pred), _Abs(ii, elt))
-        # plain map: SeqV of boxed elements
-        return SeqV(z3.Lambda([i], self.box(elt)), it.n)
+        # plain map: element-wise characterisation
+        ab = _Abs(i, elt)
+        return SymList(it.n, lambda eng, j: ab.at(eng, j))
 
     def as_symiter(self, v):
         if isinstance(v, _SymIter):
@@ -1542,6 +1580,10 @@ class Engine:
             return o.getattr(self, name)
         if isinstance(o, SeqV):
             return self.builtins_model.seq_method(self, o, name)
+        if isinstance(o, SymList):
+            if name == "tolist":
+                return NativeFn("symlist.tolist", lambda: o)
+            raise Unsupported(f"attribute {name} of symbolic list")
         if isinstance(o, (list, dict, str, tuple, set, int, float)):
             return self.builtins_model.container_method(self, o, name)
         if isinstance(o, FuncV):
@@ -1614,16 +1656,24 @@ class Engine:
             return c.getitem(self, k)
         if is_obj(c):
             if isinstance(k, slice):
+                if k.start is None and k.stop is None and k.step == -1:
+                    it = self.as_symiter(c)
+                    return SymList(it.n, lambda eng, j: it.at(eng, it.n - 1 - j))
                 f = ufunc("slice_of", Obj, Obj, Obj, Obj, Obj)
                 return f(c, self.box(k.start), self.box(k.stop), self.box(k.step))
             return self.opaque_item(c, k)
-        if isinstance(c, SeqV):
+        if isinstance(c, (SeqV, SymList)):
+            it = self.as_symiter(c)
             if isinstance(k, slice):
+                if k.start is None and k.stop is None and k.step == -1:
+                    return SymList(it.n, lambda eng, j: it.at(eng, it.n - 1 - j))
+                if k.start is None and k.stop is None and k.step is None:
+                    return SymList(it.n, it.at)
                 raise Unsupported("slice of symbolic sequence")
             i = self.to_index(k)
-            if not self.branch(z3.And(i >= -c.n, i < c.n)):
+            if not self.branch(z3.And(i >= -it.n, i < it.n)):
                 raise PyRaise(IndexError, ())
-            return c.elem(z3.If(i < 0, i + c.n, i))
+            return it.at(self, z3.If(i < 0, i + it.n, i))
         if isinstance(c, (list, tuple)) and is_sym(k):
             i = self.to_index(k)
             n = len(c)
@@ -1879,6 +1929,15 @@ class Engine:
         return f(fn, *[self.box(a) for a in args], *[self.box(kwargs[k]) for k in kws])
 
 
+class PathCut(Exception):
+    """the path ends here by design (after the inductive step of a loop invariant)"""
+
+
+class LoopSpec:
+    def __init__(self, name, invariant, havoc):
+        self.name, self.invariant, self.havoc = name, invariant, havoc
+
+
 class _Abs:
     """value abstracted over an index variable"""
 
@@ -1899,11 +1958,7 @@ def _subst(v, var, i):
     return v
 
 
-class _SymIter:
-    """iterable of symbolic length n whose i-th element is at(engine, i)"""
-
-    def __init__(self, n, at):
-        self.n, self.at = n, at
+_SymIter = SymList
 
 
 class _KwBag:
@@ -2014,6 +2069,9 @@ def _dotted(n):
 
 def _zb(x):
     return z3.BoolVal(x) if isinstance(x, bool) else x
+
+
+_zbv = _zb
 
 
 def _zs(x):
